@@ -38,7 +38,7 @@ def strategy(tier, phase):
 
     edit = st.tuples(st.integers(0, 13), st.integers(0, 60), st.integers(0, 60), st.integers(0, 60)).map(list)
     return st.fixed_dictionaries({"gen": st.just(2), "tape": rmodel.tape_strategy(), "edits": st.lists(edit, max_size=4), "pass": st.integers(0, len(c05.PASSES) - 1),
-                                  "param": st.integers(0, 7), "fault": st.sampled_from([0, 0, 0, 1, 2, 3]), "functional": st.booleans()})
+                                  "param": st.integers(0, 7), "fault": st.sampled_from([0, 0, 0, 1, 2, 3]), "functional": st.booleans(), "wrap": st.sampled_from([0, 0, 1, 2, 3])})
 
 
 class Boom(Exception):
@@ -119,6 +119,12 @@ def execute(case):
             # no tensor-class swaps (not needed here) and no outputs beyond the operator's schema (the model would be
             # invalid ONNX, where the statement makes no promise about passes)
             if isinstance(op, list) and len(op) == 4 and op[0] in (0, 3, 4, 5, 7, 8, 9, 12, 13):
+                if op[0] == 12:
+                    # new inputs/outputs only on the main graph: on a function or a control-flow body they change the
+                    # arity its call sites / its operator expect, i.e. the model becomes invalid
+                    gs = ctx.graphs()
+                    if gs[op[1] % len(gs)] is not model.graph:
+                        continue
                 c03.apply_op(ctx, op)
         except Exception:
             pass
@@ -202,6 +208,12 @@ def execute(case):
     if functional:
         p = passes.functionalize(p)
         classes.append("functionalized")
+    wrap = case.get("wrap", 0) % 4
+    if wrap:
+        # the combinators are passes themselves and owe the same contract (identity rule, modified flag, fixpoint)
+        p = [None, lambda q: passes.Sequential(q), lambda q: passes.PassManager([q], steps=2, early_stop=True),
+             lambda q: passes.PassManager([q], steps=3, early_stop=False)][wrap](p)
+        classes.append(["", "Sequential", "PassManager_early_stop", "PassManager_fixed_steps"][wrap])
     graphs_before = _all_graphs(model)
     sorted_before = not c12.order_violations(graphs_before)
     b0 = _ser(model)
